@@ -121,6 +121,18 @@ check("C12", "exploration",
       "bounded-exhaustive matrix enumeration on the real type checker with a twin (differential) oracle",
       "DESIGN.md §3/C12")
 
+check("C13", "exploration",
+      "Matrix of 26 compile-time contexts (array sizes, range bounds, scalar-set sizes in global/typedef/struct/template-"
+      "local/function-local/parameter/select/quantifier position; global, const, array, struct and template-local "
+      "initialisers; arguments for value, const-value and const-reference parameters and partial instantiations) x 26 "
+      "expressions (12 constant ones incl. functions of constants with chains 1-3; 14 depending on a mutable variable "
+      "directly, through arrays/structs/inline-if, through functions of depth 1-3, statements, loops, arguments, meta "
+      "variables), plus free process parameters inside array sizes with bound twins; mutable cell must be rejected, constant "
+      "twin accepted.",
+      "Every declared type is used. Function-local initialisers are outside the statement. Small scope: chains <= 3.",
+      "bounded-exhaustive matrix enumeration on the real type checker with a twin (differential) oracle",
+      "DESIGN.md §3/C13")
+
 check("C14", "exploration",
       "Full matrix: all ordered operand pairs from a typed pool x 11 commutative operators (a op b vs b op a), all ordered "
       "pairs as inline-if branches (c?a:b vs !c?b:a), and all ordered pairs of 16 typedef'd types as (argument, reference "
